@@ -17,17 +17,17 @@ claimed.update({
  "C09": (A, "Real Signals / SignalsInfo<WithRawSiginfo> / SignalDelivery / poll_signal consumers over a real socket pair against 1-2 delivery threads, add_signal from another thread and nested arrivals inside the consumer (every boundary incl. all 128 scan steps). At quiescence (nobody else runnable) a blocked consumer with an unreported delivery is the lost wake-up; every delivery must be followed by a yield after its store (payload-exact for the info-carrying exfiltrator).", "5"),
  "C10": (A, "Same executions as C09 with counting oracles at every yield (yields <= deliveries begun since added; only watched numbers), payload-exact record matching (each queued delivery at most one record, faithful copy, delivery order for non-overlapping deliveries) and a burst of 7 deliveries against the 5-deep buffer.", "5"),
  "C11": (A, "close() from 1-2 handle clones at every instant against wait / forever / pending / poll_signal consumers with a concurrent delivery: is_closed sticky, every consumer terminates (deadlock/livelock detection), forever ends, and every PollResult::Pending was preceded in the same call by a callback consultation that answered not-ready.", "5"),
- "C18": (A, "Half-lock writers vs re-entering readers (every interleaving for 1 writer + 2 readers) and registry mutators on one or two signals including one that panics on a forbidden signal, with delivery threads and nested arrivals inside the barrier; fair scheduling (a yielding spinner is only re-run after someone else moved): any deadlock, any state where only yielding threads remain, or the step horizon is a violation.", "5"),
+ "C18": (A, "Half-lock writers vs re-entering readers (every interleaving for 1 writer + 2 readers) and registry mutators on one or two signals including one that panics on a forbidden signal and an unchecked registration the OS refuses, iterator add_signal / drop against registry calls, relay scenarios in which finite deliveries overlap so that one is always in flight until the mutator is done, with delivery threads and nested arrivals inside the barrier; fair scheduling (a yielding spinner is only re-run after someone else moved): any deadlock, any state where only yielding threads remain, or the step horizon is a violation.", "5"),
 })
 
 claimed.update({
  "C05": (B, "Explicit-state BFS over reference-model states (per issued id: signal, live, kind) to depth 6 (quick) / 8 (thorough) over register / register_sigaction / unregister(every id ever returned, live and stale) / unregister_signal / deliver on three signals; every transition is executed as a complete history on the real registry from a reset and compared step by step with the model (fresh ids, unregister's return value, exact action sequence of every delivery, probe deliveries of all signals, disposition = library handler with SA_RESTART|SA_SIGINFO also with zero actions); plus grids over all signal numbers, a 10000-step id cycle and a system-call-restart probe.", "5"),
  "C12": (B, "Every history new(list) + up to 3 (quick) / 4 (thorough) operations over add_signal(ok / already watched / forbidden / negative / too large / OS-refused) / clone handle / drop handle / drop instance, 12 failing constructor lists, and add_signal(x) twice for every x in [-2,130]+MIN/MAX, for the three exfiltrators; each history in a forked child that probes after every step (wake attempts per probe signal, foreign actions still firing, what the consumer drains, open descriptors) and is compared with a reference model; abort or unexpected death of the child is a violation.", "5"),
- "C13": (B, "Complete grid descriptor kind x fill level x burst length x entry point plus ownership histories (register/deliver/unregister; rejected registrations: forbidden, OS-refused, fd -1, closed number; then a sentinel on the freed number), each in a forked child with a watchdog: wake attempts == deliveries, bytes <= deliveries and exact when empty, prompt return when full, one byte after a drain, descriptor closed exactly once and never written again.", "5"),
+ "C13": (B, "Complete grid descriptor kind x fill level x burst length x entry point plus ownership histories (register/deliver/unregister; rejected registrations: forbidden, OS-refused, fd -1, closed number; then a sentinel on the freed number), each in a forked child with a watchdog: wake attempts == deliveries, bytes <= deliveries and exact when empty, prompt return when full, one byte after a drain, descriptor closed exactly once and never written again. Plus schedules (engine A, deviation-bounded, real code): the action of a registered pipe is removed and an iterator instance and its last handle are dropped (both orders) against deliveries from another thread and nested at every operation boundary of the teardown - every wake attempt must go to an open descriptor and none happens once the owners are gone.", "5"),
  "C14": (B, "Complete grid 16 entry points x signal numbers [-2,130]+MIN/MAX x context (quick: fresh; thorough: also after two registrations), one forked child per cell; expected class from a rule using the OS verdict obtained by an independent sibling; on refusal: child alive (no abort), disposition table unchanged, earlier actions still fire once, captured Arcs released, descriptor closed, next valid registration through the same entry point succeeds.", "5"),
- "C15": (B, "Every history of length <= 4 (quick) / 5 (thorough) over {deliver, app stores true / false / other} x both registration orders x termination signals, exit statuses {0,1,42,255} (quick) / 0..255 (thorough), each in a forked child; fate compared with a one-boolean reference model: dies in exactly the modelled delivery with WIFEXITED and exactly the status, no atexit hook, no later action in the fatal delivery; flags hold true / the registered value after every surviving delivery.", "5"),
- "C16": (B, "Complete grid signal 1..64 + out-of-range numbers x calling context (normal, inside own action blocked, inside own action unblocked): emulated child vs native child (SIG_DFL + raise) classified by waitpid(WUNTRACED) inside a constructed non-orphaned process group; names compared with sigabbrev_np.", "5"),
- "C17": (B, "Complete grid sending mechanism (kill, raise, sigqueue, kill from another process, child exit/kill/stop/continue, setitimer, timer_create, SIGPIPE) x catchable signal (quick: 6 representatives; thorough: all) observed by the library (WithOrigin iterator and Origin::extract in an action) and by an independent chained SA_SIGINFO reader in single-threaded forked children; plus the complete synthetic grid si_signo 1..64 x si_code in [-10,10]+{0x80,MIN,MAX} with a poisoned union.", "5"),
+ "C15": (B, "Every history of length <= 4 (quick) / 5 (thorough) over {deliver, app stores true / false / other} x both registration orders x termination signals x how the condition is shared (clone / only strong handle moved into the registration, application arms through a weak one), exit statuses {0,1,42,255} (quick) / 0..255 (thorough), each in a forked child; fate compared with a one-boolean reference model: dies in exactly the modelled delivery with WIFEXITED and exactly the status, no atexit hook, no later action in the fatal delivery; flags hold true / the registered value after every surviving delivery.", "5"),
+ "C16": (B, "Complete grid signal 1..64 + out-of-range numbers x calling context (normal, inside own action blocked, inside own action unblocked, deliveries under register_conditional_default with the condition true / false; for signals without a known name also blocked with one instance pending under an application handler / the default disposition, where mask, pending set, disposition and handler runs must be untouched): emulated child vs native child (SIG_DFL + raise) classified by waitpid(WUNTRACED) inside a constructed non-orphaned process group; names compared with sigabbrev_np.", "5"),
+ "C17": (B, "Complete grid sending mechanism (kill, raise, sigqueue, kill from another process, child exit/kill/stop/continue, setitimer, timer_create, SIGPIPE) x catchable signal (quick: 6 representatives; thorough: all) observed by the library (WithOrigin iterator and Origin::extract in an action) and by an independent chained SA_SIGINFO reader in single-threaded forked children; plus the complete synthetic grid si_signo 1..64 x si_code in [-10,10]+{0x80,MIN,MAX} with a poisoned union and again with si_pid / si_uid in {(0,4242),(0,0),(4242,0),(1,1)}.", "5"),
 })
 pending = {}
 allp = [json.loads(l)["id"] for l in open("/verif/properties.jsonl")]
